@@ -71,3 +71,17 @@ Example C10_count_error_outside : call_builtin 1 (A [97;116]%Z) [VBool true] = B
   call_builtin 1 ArityFacts.if_then_name [VNum (of_int 1); VBool true; VBool false] = BErr (WrongParameterCount 2).
 Proof. repeat split; try reflexivity. unfold gen_builtins. cbn. auto. Qed.
 Print Assumptions C10_no_count_error_within_arity. Print Assumptions C10_no_count_error_within_arity_time.
+
+(* the same for the standard library itself: std_env (StdEnv.v) is the static environment holding the 77 registrations of the regenerated table, with calls going to the builtin models;
+   it is coherent, so a script the validator accepts against it never fails with an undefined variable or a function that is not found - every script, every set of variables *)
+Require Import StdEnv StdEnvFacts Front.
+Theorem C10_standard_library_env_coherent : forall off vars, env_coherent (std_env off vars).
+Proof. exact std_env_coherent. Qed.
+Theorem C10_validated_script_never_unresolved : forall off vars e, check_names (std_env off vars) e = None -> ~ Generic.unresolved (fst (eval_t (std_env off vars) e)).
+Proof. exact validated_script_never_unresolved. Qed.
+(* the pipeline as one function: text -> tokens -> tree -> validation, evaluation, optimization - here `max(length('abc'), 2) + 1`, accepted, 4 before and after optimize *)
+Example C10_pipeline_example :
+  match run_script 1 [] [109;97;120;40;108;101;110;103;116;104;40;39;97;98;99;39;41;44;32;50;41;32;43;32;49]%N with
+  | SRan (Ok (VNum a)) None (Ok (VNum b)) => feq a (of_int 4) && feq b (of_int 4) | _ => false end = true.
+Proof. vm_compute. reflexivity. Qed.
+Print Assumptions C10_validated_script_never_unresolved.
